@@ -161,15 +161,67 @@ def catalogue(chk, deb, btcc, tap):
     return cases
 
 
+SAN_ENV = {"ASAN_OPTIONS": "abort_on_error=1:handle_abort=0:handle_segv=0:handle_sigfpe=0:handle_sigbus=0:handle_sigill=0:detect_leaks=0",
+           "UBSAN_OPTIONS": "abort_on_error=1:print_stacktrace=0"}
+
+
+def san_corpora(chk, san):
+    """the session corpora of the other properties, executed by the native harness of the sanitizer build: a sanitizer report ends
+    the harness through its crash handler (Crashed event), which no specification action allows.  Every session is executed; the
+    sessions that crashed, plus a sample of the others, are then validated by TLC (Trace_Session), which is what reports the crash."""
+    import c04, c16, c17, c02, c11, c05, c03
+    quick = chk.tier == "quick"
+    cap = 12000 if quick else 60000
+    sample_n = 250 if quick else 3000
+    exe = san.exe("vharness")
+    crash, other, total, ncrashed = [], 0, 0, 0
+    for name, mod in (("c17", c17), ("c01", c01), ("c04", c04), ("c16", c16), ("c02", c02), ("c11", c11), ("c05", c05), ("c03", c03)):
+        jobs = mod.make_jobs(chk)
+        if len(jobs) > cap:
+            jobs = chk.rng.sample(jobs, cap)
+        total += len(jobs)
+        res = drivers.run_harness(exe, drivers.batches(jobs, 16), os.path.join(chk.scratch, "san"), "san" + name, parallel=16, env=SAN_ENV)
+        crashed = set()
+        for tf, rc, err, ncr in res:
+            if rc != 0:
+                raise checklib.Infra("sanitizer harness exited with %s: %s" % (rc, err[-1500:]))
+            cur = None
+            with open(tf) as f:
+                for line in f:
+                    if line.startswith('{"e":"Open"') or '"e": "Open"' in line[:16]:
+                        try: cur = json.loads(line).get("id")
+                        except ValueError: cur = None
+                    elif '"Crashed"' in line[:40] and cur is not None:
+                        crashed.add(cur)
+            os.remove(tf)
+        ncrashed += len(crashed)
+        pick = [j for j in jobs if j.id in crashed][:400]
+        rest = [j for j in jobs if j.id not in crashed]
+        pick += chk.rng.sample(rest, min(sample_n, len(rest)))
+        divs = chk.validate("Trace_Session", pick, "c15" + name, exe=exe, env=SAN_ENV)
+        for d, j in divs:
+            if str(d.get("what", "")).startswith("crash"):
+                crash.append((d, j))
+            else:
+                other += 1
+    chk.evaluations += total
+    chk.notes.append("sanitizer-build harness executed %d sessions of the corpora of C01-C05, C11, C16, C17: %d ended in a crash / sanitizer report; "
+                     "the crashed sessions and a sample of the others were validated by TLC (%d other divergences there: known findings of "
+                     "those properties, judged by their own checks)" % (total, ncrashed, other))
+    return crash
+
+
 def run(chk):
     quick = chk.tier == "quick"
     chk.mc("MC_Cli", "MC_Cli.cfg")
     san = build.Build(variant="san")
     try:
-        san.build(mains=("btcdeb", "btcc", "tap"))
+        san.build(mains=("btcdeb", "btcc", "tap"), harness=("vharness",))
     except build.BuildError as e:
         raise checklib.Infra("sanitizer build failed: " + str(e)[-1500:])
-    chk.notes.append("ASan+UBSan build (clang-14) of btcdeb, btcc, tap in %.0fs" % san.wall)
+    chk.notes.append("ASan+UBSan build (clang-14) of btcdeb, btcc, tap and the native harness in %.0fs" % san.wall)
+    chk.build_obj = san
+    crash_divs = san_corpora(chk, san)
     cases = catalogue(chk, san.exe("btcdeb"), san.exe("btcc"), san.exe("tap"))
     def do(i):
         cls, tool, args, fn, stdin = cases[i]
@@ -191,7 +243,7 @@ def run(chk):
     for d, j in divs:
         oid = d.get("observed", {}).get("id")
         fixed.append((d, byid.get(oid)))
-    chk.classify(fixed)
+    chk.classify(fixed + crash_divs)
     return chk.finish(level="exploration", rule=RULE, assumptions=ASSUME, extra={"runs": len(cases), "classes": sorted({c[0] for c in cases})})
 
 
